@@ -135,6 +135,13 @@ def generate(spec):
                             "settings": {}})
             else:
                 ops.append({"t_us": t, "inst": j, "op": "stream", "body": rng.random() < 0.6})
+    # a client that opens a stream, reads a little and lets the response sit (its instance stays locked meanwhile), closing it
+    # much later: other instances live, step, expire and come back during that time
+    for j in range(k):
+        if insts[j]["role"] == "observer" and rng.random() < 0.25:
+            t0_ = rng.randrange(1 * 10**6, 6 * 10**6)
+            ops.append({"t_us": t0_, "inst": j, "op": "stream_open", "chunks": rng.choice([1, 2, 3])})
+            ops.append({"t_us": t0_ + rng.choice([3, 8, 40]) * 10**6, "inst": j, "op": "stream_close"})
     # traffic of a party that owns no instance: /run with settings on the server-level bptk
     for _ in range(rng.choice([0, 0, 1, 2, 3])):
         scen = rng.choice(["base", "alt"])
@@ -154,6 +161,9 @@ def generate(spec):
             "instances": insts, "ops": ops}
     if spec.get("conc"):
         case["conc"] = {"sched": {"kind": "random", "seed": rng.randrange(2**32), "p": rng.choice([0.02, 0.1])}}
+        if rng.random() < 0.5:
+            case["conc"]["narrow"] = True
+            case["conc"]["sched"]["p"] = rng.choice([0.2, 0.4])
     return case
 
 
@@ -190,6 +200,38 @@ def _do(w, ids, o, tag=None):
     if op == "stream":
         r, _, _ = w.stream("/%s/stream-steps" % iid, {"settings": {}} if o.get("body", True) else None, tag=tag)
         return r
+    if op == "stream_open":
+        from worlds.server_world import Resp
+        client = w.app.test_client()
+        r0 = client.open("/%s/stream-steps" % iid, method="POST", json={"settings": {}}, buffered=False)
+        it = iter(r0.response)
+        parts = []
+        for _ in range(o["chunks"]):
+            try:
+                ch = next(it)
+            except StopIteration:
+                break
+            except Exception:
+                break
+            parts.append(ch if isinstance(ch, str) else ch.decode())
+        w.held_streams = getattr(w, "held_streams", {})
+        w.held_streams[j] = r0
+        canon_parts = []
+        for ch in parts:
+            try:
+                canon_parts.append(json.loads(ch))      # (key order inside a step result is not a difference)
+            except Exception:
+                canon_parts.append(ch)
+        return Resp(r0.status_code, json.dumps(canon_parts, sort_keys=True))
+    if op == "stream_close":
+        from worlds.server_world import Resp
+        r0 = getattr(w, "held_streams", {}).pop(j, None)
+        if r0 is not None:
+            try:
+                r0.close()
+            except Exception:
+                pass
+        return Resp(200 if r0 is not None else 204, "closed")
     if op == "session_results":
         return w.get("/%s/session-results" % iid)
     if op == "flat_session_results":
@@ -245,7 +287,8 @@ def _run(case, only=None, log=None, res=None, conc=None):
                     sp = dict(conc["sched"])
                     sp["seed"] = (sp.get("seed", 0) * 1000003 + n) % (2**32)
                     pol = make_policy(sp)
-                sched = Scheduler(pol, TRACE, log=log)
+                # one case in two places the pre-emption points inside the state adapter only: the two saves then really overlap
+                sched = Scheduler(pol, TRACE[-1:] if (conc.get("narrow") and cfg.get("adapter")) else TRACE, log=log)
                 with sched:
                     try:
                         rr = run_tasks(sched, [c1, c2])
@@ -272,6 +315,12 @@ def _run(case, only=None, log=None, res=None, conc=None):
             log.add("return", n, r.status)
             out.setdefault(o["inst"], []).append((n, r.status, r.text))
             pos += 1
+        for r0 in list(getattr(w, "held_streams", {}).values()):
+            try:
+                r0.close()          # still inside the simulated world (file system, clock)
+            except Exception:
+                pass
+        w.held_streams = {}
         idmap = {v: "INST%d" % k for k, v in ids.items() if v}
         for j, lst in out.items():
             out[j] = [(n, st, _norm(tx, idmap)) for n, st, tx in lst]
@@ -338,7 +387,7 @@ def execute(case):
                 n += 2
             else:
                 n += 1
-        conc = {"sched": case["conc"].get("sched"), "explicit": case["conc"].get("explicit"), "pairs": pairs}
+        conc = {"sched": case["conc"].get("sched"), "explicit": case["conc"].get("explicit"), "pairs": pairs, "narrow": case["conc"].get("narrow")}
         # both requests of a concurrent pair are in flight at the same virtual instant
         case = copy.deepcopy(case)
         for n in pairs:
